@@ -36,7 +36,7 @@ var Battery = []string{
 // mistype all stay frequent.
 func (g *Gen) DocFor(p *spec.Path) interface{} {
 	g.budget = 300 // planted structure is bounded whatever the path looks like (long paths would otherwise grow it exponentially)
-	g.long, g.longCap = 0, 260
+	g.long, g.longCap = 0, 5000
 	if g.R.Intn(16) == 0 {
 		g.long = 1 + g.R.Intn(2) // up to two containers of this document are padded beyond the small sizes
 		subPaths := 0
@@ -73,7 +73,7 @@ func (g *Gen) longSize() int {
 	case x < 15:
 		return 65 + g.R.Intn(4)
 	}
-	return 257 + g.R.Intn(4)
+	return []int{257, 1025, 4097}[g.R.Intn(3)] + g.R.Intn(4)
 }
 
 // padList pads l (in a document marked long) with cheap values, the planted elements spread over the result.
@@ -99,15 +99,15 @@ func (g *Gen) padList(l []interface{}) []interface{} {
 	return append(out, l...)
 }
 
-// padObject does the same for objects (keys k000..).
+// padObject does the same for objects (keys k0000..).
 func (g *Gen) padObject(m map[string]interface{}) map[string]interface{} {
 	if g.long <= 0 || g.R.Intn(2) == 0 {
 		return m
 	}
 	g.long--
-	n := min(g.longSize(), g.longCap, 80)
+	n := min(g.longSize(), g.longCap, 1100)
 	for i := 0; len(m) < n; i++ {
-		k := "k" + string(rune('0'+i/100)) + string(rune('0'+i/10%10)) + string(rune('0'+i%10))
+		k := "k" + string(rune('0'+i/1000%10)) + string(rune('0'+i/100%10)) + string(rune('0'+i/10%10)) + string(rune('0'+i%10))
 		if g.R.Intn(3) == 0 {
 			m[k] = g.Doc(1)
 		} else {
